@@ -31,9 +31,10 @@ Proof.
   - eexists. split; [vm_compute; reflexivity|]. split; [cbn; tauto|reflexivity].
 Qed.
 
-(* d = {'self': d, 's': {4, 5}, 'l': [d]} *)
+(* d = {'self': d, 's': {4, (5, 6)}, 'l': [d]} *)
 Definition ex_copy : obj :=
-  ONode 0 KDict [(KT 0, ORef 0 KDict); (KT 1, ONode 1 KSet [(KI 0, OLeaf 4); (KI 1, OLeaf 5)]);
+  ONode 0 KDict [(KT 0, ORef 0 KDict);
+                 (KT 1, ONode 1 KSet [(KI 0, OLeaf 4); (KI 1, ONode 3 KTuple [(KI 0, OLeaf 5); (KI 1, OLeaf 6)])]);
                  (KT 2, ONode 2 KList [(KI 0, ORef 0 KDict)])].
 Lemma ex_copy_ok :
   NoDup (ids ex_copy) /\ wf_keys ex_copy /\ no_sets ex_copy /\ imm_backref [] ex_copy = false.
